@@ -5,7 +5,7 @@ import collections
 ID = "C05"; MODEL = "timer"; IMPL = "timer"
 COQ_PROP = "Properties/C05.v"; COQ_DIRS = ["Common", "Timer"]
 COQ_MODULE = "Timer.Model"; RUN_FN = "run"
-THEOREMS = ["C05_Inv_wake_preserved", "C05_Inv_wake_every_history", "C05_never_early", "C05_woken_exactly_at_deadline",
+THEOREMS = ["C05_Inv_wake_preserved", "C05_Inv_wake_every_history", "C05_snapshot_invariant", "C05_never_early", "C05_woken_exactly_at_deadline",
             "C05_never_late_never_lost", "C05_complete_run_wakes_at_deadline", "C05_futures_keep_invariant",
             "C05_composite_event_is_driver_event", "C05_woken_through_last_poller",
             "C05_due_deadline_completes_immediately",
@@ -352,18 +352,70 @@ def task_outputs(script, out):
         if i + 1 + n + 1 > len(out):
             raise ValueError("output too short")
         res.append((out[i + 1:i + 1 + n], out[i + 1 + n])); i += n + 2
-    if len(out) - i != 2:
+    if len(out) - i < 2:
         raise ValueError("expected `ok end_time` after the task logs, got %s" % out[i:])
-    return tasks, res, out[i], out[i + 1]
+    ok, end = out[i], out[i + 1]
+    i += 2
+    snaps = []
+    while len(out) - i >= 5:
+        t, m, n = out[i:i + 3]
+        if len(out) - i < 3 + 2 * n + 2:
+            raise ValueError("truncated driver snapshot")
+        slots = [(out[i + 3 + 2 * j], out[i + 4 + 2 * j]) for j in range(n)]
+        flag, nw = out[i + 3 + 2 * n], out[i + 4 + 2 * n]
+        snaps.append((t, m, slots, nw if flag else None))
+        i += 5 + 2 * n
+    if out[i:] not in ([], [8]):
+        raise ValueError("trailing output %s" % out[i:])
+    return tasks, res, ok, end, snaps
+
+
+def check_snapshots(snaps):
+    """Inv_wake (coq/Timer/Inv.v) evaluated on the real driver between events: slots sorted by distinct deadlines, the
+    front slot holds a timer, no slot lies in the past, and whenever a slot holds a live timer the driver's next_wakeup --
+    the AsyncWakeupEvent it has put into the event set -- satisfies now <= next_wakeup <= earliest live deadline."""
+    for (t, m, slots, nw) in snaps:
+        times = [d for d, _ in slots]
+        if any(a >= b for a, b in zip(times, times[1:])):
+            return "t=%d module %d: timer slots not sorted by distinct deadlines: %s" % (t, m, slots)
+        if slots and slots[0][1] == 0:
+            return "t=%d module %d: the front timer slot %d is empty after deactivate (next() did not prune it)" % (t, m, slots[0][0])
+        live = [d for d, c in slots if c > 0]
+        if any(d < t for d in times):
+            return "t=%d module %d: a timer slot lies in the past: %s" % (t, m, slots)
+        if nw is not None and nw < t and live:
+            return "t=%d module %d: next_wakeup=%d lies in the past while timers are live %s" % (t, m, nw, slots)
+        if live:
+            if nw is None:
+                return ("t=%d module %d: Inv_wake violated: live timer slot(s) %s but no wake-up is scheduled (next_wakeup = MAX)"
+                        % (t, m, slots))
+            if not (t <= nw <= min(live)):
+                return ("t=%d module %d: Inv_wake violated: next_wakeup=%d does not cover the earliest live deadline %d"
+                        % (t, m, nw, min(live)))
+    # the last samples are taken when the event set is empty: no AsyncWakeupEvent is scheduled any more
+    last = {}
+    for sn in snaps:
+        last[sn[1]] = sn
+    for (t, m, slots, nw) in last.values():
+        live = [d for d, c in slots if c > 0]
+        if live:
+            return ("t=%d module %d: Inv_wake violated: the event set is empty (the run ends) but timer slot(s) %s still hold live "
+                    "timers (next_wakeup=%s)" % (t, m, [d for d in live], nw))
+    return None
 
 
 def monitor(script, out):
     """C05 on the implementation's log alone: every await returned at exactly its deadline (never earlier, later,
     or never), timeout results, interval tick instants; the run joined every task."""
     try:
-        tasks, res, ok, end = task_outputs(script, out)
+        tasks, res, ok, end, snaps = task_outputs(script, out)
     except ValueError as e:
         return "malformed output: %s" % e
+    bad = check_snapshots(snaps)
+    if bad:
+        return bad
+    if not snaps:
+        return "no driver snapshots in the output"
     last = 0
     exp = expect_all(tasks)
     all_done = all(e[3] == "done" for e in exp)
@@ -529,7 +581,9 @@ def gen_step(rng, now_hint):
         a = gen_dur(rng)
         b = a if rng.random() < 0.3 else gen_dur(rng)
         if rng.random() < 0.2: b = rng.choice(FAR)
-        return ("select", rng.random() < 0.8, a, b)
+        # an unbiased select! polls its branches in an order drawn from tokio's RNG: when one branch is ready at the first
+        # poll the other one is registered (and dropped) or not -- visible in the driver snapshots -- so such selects are biased
+        return ("select", rng.random() < 0.8 or min(a, b) == 0, a, b)
     if r < 0.72:
         p = rng.choice(PERIODS)
         busy = tuple(rng.choice(BUSY) for _ in range(rng.randint(1, 6)))
